@@ -274,9 +274,9 @@ def dump(schema):
         except Exception:
             name = '<noname>'
         fields = {}
-        for fn in type(obj).get_fields():
-            if fn in SKIP_FIELDS:
-                continue
+        for fn, fld in type(obj).get_fields().items():
+            if fn in SKIP_FIELDS or getattr(fld, 'ephemeral', False):
+                continue     # ephemeral = declaration-time only, never stored (e.g. declared_overloaded)
             try:
                 v = obj.get_field_value(schema, fn)
             except Exception as e:  # noqa
@@ -400,8 +400,14 @@ def replay_stmts(schema, stmts):
     return schema
 
 
-def migrate_step(cur, sdl_text, want_detail=True):
-    """one START/POPULATE/COMMIT.  returns (result dict, committed schema or None, target or None)"""
+def migrate_step(cur, sdl_text, want_detail=True, verify=True, full=False):
+    """one START MIGRATION TO {sdl}; POPULATE MIGRATION; COMMIT MIGRATION.
+    returns (result dict, committed schema or None, target or None).
+    status:  invalid-target   START MIGRATION rejects the SDL (not a valid schema)
+             diff-error       delta_schemas raised (e.g. reports a dependency cycle)
+             rejected         the computed migration is not accepted: generating / replaying its DDL
+                              (POPULATE) or CREATE MIGRATION (COMMIT) raised
+             accepted         committed; monitors in r['mon'] compare every form with the target"""
     from edb import edgeql
     from edb.edgeql import ast as qlast
     from edb.schema import ddl as s_ddl
@@ -428,84 +434,89 @@ def migrate_step(cur, sdl_text, want_detail=True):
         r['cmds_err'] = errinfo(e)
         r['cmds'] = []
     r['ncmds'] = len(r['cmds'])
-    dB = dump(B)
-    r['nobjs'] = len(dB)
     if want_detail:
         r['topA'] = top_objects(cur)
         r['topB'] = top_objects(B)
+    else:
+        r['cmds'] = [c for c in r['cmds'] if c[0] == 0]
     mon = {}
-    # ---- (1) command tree
-    try:
-        ctx = sd.CommandContext()
-        ctx.testmode = True
-        T = diff.apply(cur, ctx)
-        mon['tree'] = compare(T, B, dB)
-    except Exception as e:  # noqa
-        mon['tree'] = {'rejected': errinfo(e)}
-    # ---- (2) POPULATE: DDL ASTs, replayed one by one
-    committed = None
+    # ---- POPULATE: DDL ASTs of the computed migration (applies the command tree step by step)
     try:
         new_ddl = tuple(s_ddl.ddlast_from_delta(cur, B, diff, testmode=True))
     except Exception as e:  # noqa
-        r['status'] = 'ddlast-error'
+        r['status'] = 'rejected'
+        r['stage'] = 'ddlast'
         r['err'] = errinfo(e)
-        r['mon'] = mon
         return r, None, B
-    try:
-        P = replay_stmts(cur, new_ddl)
-    except Exception as e:  # noqa
-        r['status'] = 'rejected'          # POPULATE MIGRATION fails: the migration is not accepted
-        r['err'] = errinfo(e)
-        r['mon'] = mon
-        try:
-            r['ddl'] = s_ddl.ddl_text_from_delta(cur, B, diff)[:1500]
-        except Exception:
-            pass
-        return r, None, B
-    mon['populate'] = compare(P, B, dB)
-    # ---- (3) COMMIT: CREATE MIGRATION {...}
+    # ---- COMMIT: CREATE MIGRATION { ddl }
     try:
         last = cur.get_last_migration()
         parent = s_utils.name_to_ast_ref(last.get_name(cur)) if last else None
         cm = qlast.CreateMigration(body=qlast.NestedQLBlock(commands=list(new_ddl)), parent=parent)
         M, _ = s_ddl.delta_and_schema_from_ddl(cm, schema=cur, modaliases={None: 'default'}, testmode=True)
-        mon['commit'] = compare(M, B, dB)
-        committed = M
     except Exception as e:  # noqa
-        mon['commit'] = {'rejected': errinfo(e)}
-    # ---- (4) the migration's DDL text replayed as text
-    if committed is not None:
+        r['status'] = 'rejected'
+        r['stage'] = 'commit'
+        r['err'] = errinfo(e)
         try:
-            mig = committed.get_last_migration()
-            script = mig.get_script(committed)
-            r['script_len'] = len(script)
-            try:
-                X = replay_stmts(cur, edgeql.parse_block(script))
-                mon['text'] = compare(X, B, dB)
-            except Exception as e:  # noqa
-                mon['text'] = {'rejected': errinfo(e), 'script': script[:1500]}
-            if want_detail:
-                r['script'] = script[:3000]
-        except Exception as e:  # noqa
-            mon['text'] = {'rejected': errinfo(e)}
-    r['mon'] = mon
-    r['status'] = 'accepted' if committed is not None else 'commit-error'
-    r['t'] = round(time.time() - t0, 2)
-    return r, committed, B
-
-
-def compare(S, B, dB=None):
-    """schema equivalence used by the monitors: repo's own diff empty AND structural dumps equal"""
-    res = {}
+            r['ddl'] = s_ddl.ddl_text_from_delta(cur, B, diff)[:1500]
+        except Exception:
+            pass
+        return r, None, B
+    r['status'] = 'accepted'
+    if not verify:
+        r['t'] = round(time.time() - t0, 2)
+        return r, M, B
+    dB = dump(B)
+    dM = dump(M)
+    r['nobjs'] = len(dB)
+    mon['commit'] = compare(M, B, dB, dM)
+    # ---- the command tree applied as a whole
     try:
-        od = own_diff(S, B)
+        ctx = sd.CommandContext()
+        ctx.testmode = True
+        T = diff.apply(cur, ctx)
+        dT = dump(T)
+        mon['tree'] = compare(T, B, dB, dT, own=(full or dT != dM))
     except Exception as e:  # noqa
-        od = 'delta_schemas raised ' + json.dumps(errinfo(e))
-    if od is not None:
-        res['own_diff'] = od
+        mon['tree'] = {'rejected': errinfo(e)}
+    # ---- the migration's DDL text (what DESCRIBE / the migration file shows) replayed as text
+    try:
+        mig = M.get_last_migration()
+        script = mig.get_script(M)
+        r['script_len'] = len(script)
+        if want_detail:
+            r['script'] = script[:3000]
+        try:
+            X = replay_stmts(cur, edgeql.parse_block(script))
+            dX = dump(X)
+            mon['text'] = compare(X, B, dB, dX, own=(full or dX != dM))
+        except Exception as e:  # noqa
+            mon['text'] = {'rejected': errinfo(e), 'script': script[:1500]}
+    except Exception as e:  # noqa
+        mon['text'] = {'rejected': errinfo(e)}
+    r['mon'] = mon
+    r['t'] = round(time.time() - t0, 2)
+    return r, M, B
+
+
+def compare(S, B, dB=None, dS=None, own=True):
+    """schema equivalence used by the monitors: repo's own delta_schemas(S, B) empty AND independent
+    structural dumps equal.  own=False (quick tier, only when dump(S) is identical to the dump of
+    the committed schema, whose own diff IS computed) skips the repo's diff for this form."""
+    res = {}
+    if own:
+        try:
+            od = own_diff(S, B)
+        except Exception as e:  # noqa
+            od = 'delta_schemas raised ' + json.dumps(errinfo(e))
+        if od is not None:
+            res['own_diff'] = od
     if dB is None:
         dB = dump(B)
-    dd = dump_diff(dump(S), dB)
+    if dS is None:
+        dS = dump(S)
+    dd = dump_diff(dS, dB)
     if dd:
         res['dump_diff'] = dd
     return res or 'eq'
@@ -517,12 +528,14 @@ def run_e2e_case(case):
     chain = list(case['chain'])
     if case.get('to_empty'):
         chain.append('module default {}')
+    vf = case.get('verify_from', 0)
+    full = bool(case.get('full'))
     for i, sdl in enumerate(chain):
-        r, committed, B = migrate_step(cur, sdl, want_detail=case.get('detail', True))
-        if case.get('direct') and committed is not None and i > 0:
+        r, committed, B = migrate_step(cur, sdl, want_detail=case.get('detail', True), verify=i >= vf, full=full)
+        if case.get('direct') and committed is not None and i > 0 and i < len(case['chain']):
             # C10: the same target reached directly from the std-only schema
             try:
-                r2, direct, _ = migrate_step(std_schema(), sdl, want_detail=False)
+                r2, direct, _ = migrate_step(std_schema(), sdl, want_detail=False, verify=False)
                 if direct is None:
                     r['direct'] = {'status': r2['status'], 'err': r2.get('err')}
                 else:
@@ -530,7 +543,7 @@ def run_e2e_case(case):
             except Exception as e:  # noqa
                 r['direct'] = {'status': 'harness-error', 'err': errinfo(e)}
         if case.get('to_empty') and i == len(chain) - 1 and committed is not None:
-            left = sorted(k for k in dump(committed) if not k.startswith('Module default'))
+            left = sorted(k for k in dump(committed) if k != 'Module default')
             r['left_after_empty'] = left[:20]
         res['steps'].append(r)
         if committed is None:
